@@ -229,12 +229,19 @@ impl CheckedIcs20Withdrawal {
             .await
             .wrap_err("failed to decrease sender or bridge balance")?;
 
+        // Whether we are the source is decided on the full denomination trace, so resolve an
+        // `ibc/...` denom to its trace prefixed form first.
+        let denom_trace =
+            crate::ibc::ics20_transfer::parse_asset(&state, &self.action.denom.to_string())
+                .await
+                .wrap_err("failed to resolve the denomination trace of the asset to withdraw")?;
+
         // If we're the source, move tokens to the escrow account, otherwise the tokens are just
         // burned.
         if is_source(
             checked_packet.source_port(),
             checked_packet.source_channel(),
-            &self.action.denom,
+            &Denom::from(denom_trace),
         ) {
             let channel_balance = state
                 .get_ibc_channel_balance(self.ibc_packet.source_channel(), &self.action.denom)
